@@ -106,16 +106,18 @@ pub fn find_under_constrained_signals(cfg: &Cfg) -> ReportCollection {
         })
         .collect::<ConstraintLocations>();
 
-    // The variables tainted by each intermediate signal (computed once per signal).
-    let tainted = constraint_locations
-        .keys()
-        .map(|signal| (signal.clone(), taint_analysis.multi_step_taint(signal)))
-        .collect::<HashMap<_, _>>();
+    // The intermediate signals which taint each variable (computed once per signal).
+    let mut tainted_by = HashMap::<VariableName, Vec<VariableName>>::new();
+    for signal in constraint_locations.keys() {
+        for sink in taint_analysis.multi_step_taint(signal) {
+            tainted_by.entry(sink).or_default().push(signal.clone());
+        }
+    }
 
     // Iterate through the CFG to identify intermediate signal constraints.
     for basic_block in cfg.iter() {
         for stmt in basic_block.iter() {
-            visit_statement(stmt, basic_block.in_loop(), &tainted, &mut constraint_locations);
+            visit_statement(stmt, basic_block.in_loop(), &tainted_by, &mut constraint_locations);
         }
     }
 
@@ -144,7 +146,7 @@ pub fn find_under_constrained_signals(cfg: &Cfg) -> ReportCollection {
 fn visit_statement(
     stmt: &Statement,
     in_loop: bool,
-    tainted: &HashMap<VariableName, HashSet<VariableName>>,
+    tainted_by: &HashMap<VariableName, Vec<VariableName>>,
     constraint_counts: &mut ConstraintLocations,
 ) {
     use AssignOp::*;
@@ -154,9 +156,14 @@ fn visit_statement(
         // statement occurs in a loop, we consider the minimum count to be
         // reached immediately.
         Substitution { meta, op: AssignConstraintSignal, .. } | ConstraintEquality { meta, .. } => {
-            let sinks = stmt.variables_used().map(|var| var.name().clone()).collect::<HashSet<_>>();
-            for (source, locations) in constraint_counts.iter_mut() {
-                if tainted[source].iter().any(|sink| sinks.contains(sink)) {
+            // The intermediate signals which taint a variable used by the statement.
+            let sources = stmt
+                .variables_used()
+                .filter_map(|var| tainted_by.get(var.name()))
+                .flatten()
+                .collect::<HashSet<_>>();
+            for source in sources {
+                if let Some(locations) = constraint_counts.get_mut(source) {
                     if in_loop {
                         locations.push(ConstraintLocation::Loop);
                     } else {
